@@ -186,7 +186,12 @@ def convert(g, entry, strategy, check, ignore):
         sys.setrecursionlimit(old)
     try:
         with deadline(3.0):
-            rec["copyPaths"] = path_set(value_of(tree.copy().to_obj()))
+            cp = tree.copy()
+            rec["copyPaths"] = path_set(value_of(cp.to_obj()))
+            # "an equal tree": by the nodes' own equality too, in both directions (for trees of acyclic structures; the
+            # placeholder of an ignored cycle compares by identity)
+            if not is_cyclic(g) and not (cp == tree and tree == cp):
+                rec["copied"], rec["exc"] = False, "copy: the copy does not compare equal to the tree (==)"
     except Expired:
         rec["copied"], rec["exc"] = False, "copy: timeout"
     except Exception as ex:
